@@ -99,6 +99,33 @@ fn path_api(shared: &SharedReport, th: bool) {
                     if v != want_v || p.clone().into_states() != states || p.clone().into_actions() != seq {
                         r.violation("c19:path-accessors", format!("{name}: into_vec() = {:?}, expected {:?}", v, want_v), rv.clone());
                     }
+                    // the same execution rebuilt from its fingerprints (what discoveries() and the Explorer do)
+                    let fps: Vec<u64> = states.iter().map(|s| fp(*s)).collect();
+                    match stateright::verif::path_from_fingerprints(&m, &fps) {
+                        None => r.violation("machinery:c19-zero-fingerprint", format!("{name}: a state has fingerprint 0"), rv.clone()),
+                        Some(p2) => {
+                            r.transitions += states.len() as u64;
+                            let v2 = p2.clone().into_vec();
+                            let st2: Vec<u8> = v2.iter().map(|(s, _)| *s).collect();
+                            if st2 != states {
+                                r.violation("c19:path-from-fingerprints-states", format!("{name}: the path rebuilt from the fingerprints of {:?} visits {:?}", states, st2), rv.clone());
+                            }
+                            for (i, (s, act)) in v2.iter().enumerate() {
+                                let ok = match (act, v2.get(i + 1)) {
+                                    (Some(a2), Some((nx, _))) => m.succ[*s as usize].get(*a2 as usize).copied().flatten() == Some(*nx),
+                                    (None, None) => true,
+                                    _ => false,
+                                };
+                                if !ok {
+                                    r.violation("c19:path-from-fingerprints-action", format!("{name}: the path rebuilt from fingerprints is {:?}: step {i} does not name an action that leads from {s} to the next state", v2), rv.clone());
+                                    break;
+                                }
+                            }
+                            if p2.encode() != enc {
+                                r.violation("c19:path-from-fingerprints-encode", format!("{name}: re-encoding the rebuilt path gives {} instead of {enc}", p2.encode()), rv.clone());
+                            }
+                        }
+                    }
                     r.outcome(format!("path:{}:{}", name, states.len()));
                 }
             }
